@@ -191,6 +191,10 @@ def rdf_cases():
               (("at", nm("k"), "l_lang"),), (("at", nm("k"), "b_T"),), (("at", nm("k"), "i_0"),),
               (("at", nm("k"), "b_F"),), (("at", nm("k"), "s_empty"),), (("at", nm("k"), "i_1"), ("at", nm("k2"), "b_T")),
               (("at", nm("k"), "b_F"), ("at", nm("k2"), "i_0"))]
+    # user attribute names that contain the names of PROV terms
+    for lookalike in ("activityLevel", "entityCount", "agentName", "planB", "timeZone", "usedBy", "roleName",
+                      "hadRoleX", "qualifiedNote", "asInBundleNote", "typeName"):
+        extras.append((("at", nm(lookalike), "s_a"),))
     for kind, mask in sweeps.shapes():
         if kind not in RELATIONS:
             continue
